@@ -9,7 +9,49 @@ var props = map[string]PropSpec{
 		Quick: []HarnessRun{
 			{Name: "solver.VP_C01_lit_arith", Kind: "L", Bounds: "every int32 with 0 < |i| < 2^30 (32-bit bit-vectors, no other bound)", Require: []string{"lit_arith"}},
 			{Name: "solver.VP_C01_cnf_slice", Kind: "E", Params: map[string]int{"n": 2, "m": 3, "k": 2, "cert": 1, "smalldb": 1}, Bounds: "n<=2 variables, m<=3 clauses, k<=2 literals each, literals symbolic in [-n,n]\\{0}; Certified on/off; learnt-clause limit default/1", Require: []string{"sat", "unsat", "parse-unsat"}},
+			{Name: "solver.VP_C01_cnf_slice", Kind: "E", Params: map[string]int{"n": 2, "m": 2, "k": 3}, Bounds: "n<=2, m<=2 clauses, k<=3 literals each (duplicate literals and tautologies inside ternary clauses)", Require: []string{"sat", "unsat", "parse-unsat"}},
+		},
+		Thorough: []HarnessRun{
+			{Name: "solver.VP_C01_lit_arith", Kind: "L", Bounds: "every int32 with 0 < |i| < 2^30", Require: []string{"lit_arith"}},
+			{Name: "solver.VP_C01_cnf_slice", Kind: "E", Params: map[string]int{"n": 2, "m": 4, "k": 2, "cert": 1, "smalldb": 1}, Bounds: "n<=2, m<=4, k<=2", Require: []string{"sat", "unsat", "parse-unsat"}},
+			{Name: "solver.VP_C01_cnf_slice", Kind: "E", Params: map[string]int{"n": 3, "m": 3, "k": 2, "cert": 1, "smalldb": 1}, Bounds: "n<=3, m<=3, k<=2", Require: []string{"sat", "unsat", "parse-unsat"}},
+			{Name: "solver.VP_C01_cnf_slice", Kind: "E", Params: map[string]int{"n": 3, "m": 2, "k": 3, "cert": 1, "smalldb": 1}, Bounds: "n<=3, m<=2, k<=3", Require: []string{"sat", "unsat", "parse-unsat"}},
 		},
 		Outside: "formulas with more variables/clauses than the stated bounds; restart and clause-deletion behaviour that needs more than a handful of conflicts",
+	},
+	"C02": {
+		ID: "C02",
+		Quick: []HarnessRun{
+			{Name: "solver.VP_C02_pb_norm", Kind: "L", Params: map[string]int{"k": 4, "W": 1 << 20, "D": 1 << 22}, Bounds: "GtEq/LtEq/Eq/AtMost on <=4 terms over distinct variables, symbolic signs, |coefficient| <= 2^20, |degree| <= 2^22, symbolic assignment; integer printer (no-wrap analysis)", Require: []string{"norm"}},
+			{Name: "solver.VP_C02_pb_norm", Kind: "L", Params: map[string]int{"k": 3, "W": 15, "D": 63, "int": 0}, Bounds: "same lemma, bit-vector printer, |coefficient| <= 15, |degree| <= 63 (cross-check of the integer printer)", Require: []string{"norm"}},
+			{Name: "solver.VP_C02_card_e2e", Kind: "E", Params: map[string]int{"n": 3, "m": 2, "k": 3, "unitfirst": 1}, Bounds: "n=3; one cardinality constraint (AtLeast1/AtMost1/Exactly1/CardConstr with AtLeast in [-1,k+1]) on <=3 distinct variables, optionally preceded by a unit constraint; literals symbolic", Require: []string{"sat", "parse-unsat"}},
+			{Name: "solver.VP_C02_card_e2e", Kind: "E", Params: map[string]int{"n": 3, "m": 2, "k": 2}, Bounds: "n=3; <=2 cardinality constraints on <=2 distinct variables each", Require: []string{"sat", "parse-unsat"}},
+			{Name: "solver.VP_C02_pb_e2e", Kind: "E", Params: map[string]int{"n": 3, "m": 1, "k": 3, "W": 2, "D": 4}, Bounds: "n=3; one constraint from PropClause/AtLeast/AtMost/GtEq/LtEq/Eq on <=3 distinct variables, coefficients in [-2,2], degree in [-4,4]", Require: []string{"sat", "unsat", "parse-unsat"}},
+			{Name: "solver.VP_C02_pb_e2e", Kind: "E", Params: map[string]int{"n": 3, "m": 2, "k": 2, "unitfirst": 1, "W": 2, "D": 3}, Bounds: "n=3; a unit clause followed by one constraint on <=2 distinct variables, coefficients in [-2,2], degree in [-3,3]", Require: []string{"sat", "parse-unsat"}},
+		},
+		Thorough: []HarnessRun{
+			{Name: "solver.VP_C02_pb_norm", Kind: "L", Params: map[string]int{"k": 4, "W": 1 << 20, "D": 1 << 22}, Bounds: "as quick", Require: []string{"norm"}},
+			{Name: "solver.VP_C02_pb_norm", Kind: "L", Params: map[string]int{"k": 3, "W": 15, "D": 63, "int": 0}, Bounds: "bit-vector printer cross-check", Require: []string{"norm"}},
+			{Name: "solver.VP_C02_card_e2e", Kind: "E", Params: map[string]int{"n": 3, "m": 2, "k": 3}, Bounds: "n=3; <=2 cardinality constraints on <=3 distinct variables each", Require: []string{"sat", "unsat", "parse-unsat"}},
+			{Name: "solver.VP_C02_pb_e2e", Kind: "E", Params: map[string]int{"n": 3, "m": 2, "k": 3, "unitfirst": 1, "W": 2, "D": 4}, Bounds: "n=3; optional unit clause + one PB constraint on <=3 variables, coefficients [-2,2], degree [-4,4]", Require: []string{"sat", "unsat", "parse-unsat"}},
+			{Name: "solver.VP_C02_pb_e2e", Kind: "E", Params: map[string]int{"n": 3, "m": 2, "k": 2, "kother": 1, "W": 2, "D": 3}, Bounds: "n=3; two constraints of any kind, the first on one variable, the second on <=2", Require: []string{"sat", "parse-unsat"}},
+			{Name: "solver.VP_C02_pb_e2e", Kind: "E", Params: map[string]int{"n": 3, "m": 1, "k": 3, "W": 4, "D": 9}, Bounds: "n=3; one constraint, coefficients [-4,4], degree [-9,9]", Require: []string{"sat", "unsat", "parse-unsat"}},
+		},
+		Outside: "more than 3 variables end to end; more than two constraints; coefficients beyond the stated ranges end to end (the normalisation lemma covers 2^20)",
+	},
+	"C03": {
+		ID: "C03",
+		Quick: []HarnessRun{
+			{Name: "solver.VP_C03_optim_cnf", Kind: "E", Params: map[string]int{"n": 2, "m": 2, "k": 2, "kc": 2, "W": 2}, Bounds: "n=2 declared variables, <=2 clauses of <=2 symbolic literals; cost function over <=2 distinct variables with symbolic polarity and weights in [0,2], or nil weights, or no cost function; Optimal and Minimize on separately built problems", Require: []string{"sat", "unsat"}},
+			{Name: "solver.VP_C03_optim_cnf", Kind: "E", Params: map[string]int{"n": 3, "m": 1, "k": 2, "kc": 3, "W": 1}, Bounds: "n=3, <=1 clause, cost over <=3 variables, weights in [0,1]", Require: []string{"sat"}},
+			{Name: "solver.VP_C03_optim_pb", Kind: "E", Params: map[string]int{"n": 2, "k": 2, "kc": 2, "W": 2, "PW": 2}, Bounds: "n=2; one PB constraint sum w_i l_i >= d on <=2 distinct variables, w in [1,2], d in [0,5]; cost over <=2 variables, weights [0,2]", Require: []string{"sat", "unsat"}},
+		},
+		Thorough: []HarnessRun{
+			{Name: "solver.VP_C03_optim_cnf", Kind: "E", Params: map[string]int{"n": 3, "m": 2, "k": 2, "kc": 3, "W": 2}, Bounds: "n=3, <=2 clauses x <=2 literals, cost over <=3 variables, weights [0,2]", Require: []string{"sat", "unsat"}},
+			{Name: "solver.VP_C03_optim_cnf", Kind: "E", Params: map[string]int{"n": 2, "m": 3, "k": 2, "kc": 2, "W": 3}, Bounds: "n=2, <=3 clauses, weights [0,3]", Require: []string{"sat", "unsat"}},
+			{Name: "solver.VP_C03_optim_pb", Kind: "E", Params: map[string]int{"n": 3, "k": 3, "kc": 3, "W": 2, "PW": 2}, Bounds: "n=3; one PB constraint on <=3 variables; cost over <=3 variables", Require: []string{"sat", "unsat"}},
+		},
+		Assumptions: []string{"cost literals only mention variables the problem declares (ParsePBConstrs cannot declare more); cost weights are non-negative (negative ones only arise through ParseOPB, see C13)"},
+		Outside:     "more than 3 variables; cost weights above 3; several PB constraints together with a cost function",
 	},
 }
